@@ -44,6 +44,9 @@ class FakePopen:
 
     # ---- Popen API used by watchdog
     def poll(self):
+        # poll() is a system call (waitpid): a scheduling point.  What it reports is the child's state when the
+        # thread is resumed, so a check made before calling poll() can be stale by then.
+        self.table.sched.yield_point(f"Popen.poll({self.pid})")
         if self.dead():
             if self.returncode is None:
                 self.returncode = 0 if self.exit_cause == "self" else -(self.signalled[-1] if self.signalled else 9)
